@@ -1,14 +1,35 @@
 #!/bin/bash
 # usage: tools/coqmake.sh [make targets...]   e.g. tools/coqmake.sh Trie/Radix.vo
-# Regenerates _CoqProject/Makefile from the files under coq/ and builds the given targets
-# (default: all) under a lock, so concurrent builds never write the same .vo twice.
+#
+# Default mode: regenerates _CoqProject/Makefile from the files under coq/ and builds the given targets
+# (default: all) in /verif/coq under a global lock, so concurrent builds never write the same .vo twice.
+#
+# Private mode (recommended while developing):  COQDEV=<yourname> tools/coqmake.sh Fam/File.vo
+#   mirrors coq/**/*.v into /verif/.cache/dev/<yourname>/coq (keeping the .vo files already built there)
+#   and builds there WITHOUT the global lock - nobody can block you and you block nobody.
+#   Proof state in private mode: cd /verif/.cache/dev/<yourname>/coq && /verif/tools/goal.sh Fam/File.v LINE
+#
+# Each build is limited to COQMAKE_TIMEOUT seconds (default 600) and 16 GB per coqc process:
+# a runaway tactic must not take the machine down.
 cd "$(dirname "$0")/.." || exit 1
 mkdir -p .cache
-exec flock .cache/coq.lock python3 - "$@" <<'PY'
-import sys, subprocess
+ulimit -v 16000000
+if [ -n "$COQDEV" ]; then
+  D=.cache/dev/$COQDEV/coq
+  mkdir -p "$D"
+  rsync -a --include='*/' --include='*.v' --exclude='*' --delete-excluded --filter='P *.vo' --filter='P *.glob' --filter='P *.aux' --filter='P .*.aux' --filter='P *.vos' --filter='P *.vok' --filter='P Makefile*' --filter='P .Makefile.d' --filter='P _CoqProject' coq/ "$D/" 2>/dev/null || rsync -a --include='*/' --include='*.v' --exclude='*' coq/ "$D/"
+  export COQDIR_OVERRIDE="$(pwd)/$D"
+  LOCK="$D/.lock"
+else
+  LOCK=.cache/coq.lock
+fi
+exec flock -w 1800 "$LOCK" python3 - "$@" <<'PY'
+import sys, subprocess, os
 sys.path.insert(0, '.')
 from checks import common
+if os.environ.get('COQDIR_OVERRIDE'):
+    common.COQ = os.environ['COQDIR_OVERRIDE']
 common.coq_makefile()
 t = sys.argv[1:] or ['all']
-sys.exit(subprocess.call(['timeout', '3000', 'make', '-j16'] + t, cwd=common.COQ))
+sys.exit(subprocess.call(['timeout', '-k', '5', os.environ.get('COQMAKE_TIMEOUT', '600'), 'make', '-j8'] + t, cwd=common.COQ))
 PY
